@@ -658,6 +658,14 @@ func c17Run(ctx *Ctx, t *tape.Tape) *report.Violation {
 			return nil
 		}
 		w, h := 8+t.Intn(57), 8+t.Intn(57)
+		// strips: one pixel high or wide (a rasteriser then samples a single
+		// row or column of every paint)
+		switch t.Pick(6, 1, 1) {
+		case 1:
+			h = 1
+		case 2:
+			w = 1
+		}
 		op := draw.Over
 		if t.Bool() {
 			op = draw.Src
